@@ -28,10 +28,19 @@
 (*      SkeletonsAgree   Skel(static) = Skel(dynamic)       (clean domain) *)
 (*      DiffsExplained   every difference has one of the recorded root     *)
 (*                       causes                              (full domain) *)
+(*      No<Cause>        one invariant per recorded root cause, refuted by *)
+(*                       TLC on a small domain (cfg/Inspector_defect.cfg): *)
+(*                       the counterexample is the defect's witness        *)
 (* and prints every program with both predicted skeletons; the driver      *)
 (* gverif/props/c17.py writes each program to disk, loads it with both     *)
 (* real agents and compares (real static, real dynamic, CPython's real     *)
 (* object graph) with (skS, skD, xdump).                                   *)
+(*                                                                         *)
+(* Domains are chosen by the constants (cfg/Inspector_<domain>_<tier>.cfg: *)
+(* clean, clean2, sigdoc, cprop = no statement behind a recorded defect;   *)
+(* full, deffull, nestfull = everything).  Fields called "ghost" below     *)
+(* (origin, val, dshape, at, bscope, bat) exist only to name the root      *)
+(* cause of a difference; neither agent's transcription reads them.        *)
 (***************************************************************************)
 EXTENDS Naturals, Sequences, FiniteSets, TLC, Json
 
